@@ -114,6 +114,8 @@ pub struct Behaviour {
     pub nodes_records_list: Option<Vec<Vec<u8>>>,
     /// Never answers FINDNODE [0] (the request a node sends to learn this peer's record).
     pub ignore_enr_requests: bool,
+    /// Answers FINDNODE [0] only after this long (a peer that is slow to hand out its record).
+    pub enr_answer_delay: Option<Duration>,
 }
 
 impl Default for Behaviour {
@@ -129,6 +131,7 @@ impl Default for Behaviour {
             nodes_record_override: None,
             nodes_records_list: None,
             ignore_enr_requests: false,
+            enr_answer_delay: None,
         }
     }
 }
@@ -505,13 +508,23 @@ impl Engine {
             RefMessage::TalkReq { request, .. } => vec![RefMessage::TalkResp { id, response: request.clone() }],
             _ => vec![],
         };
+        let slow = match (&m, self.peers[i].behaviour.enr_answer_delay) {
+            (RefMessage::FindNode { distances, .. }, Some(d)) if distances == &vec![0u64] => Some(d),
+            _ => None,
+        };
         for r in replies {
             if self.peers[i].sim.latest(&vid).is_none() {
                 return;
             }
             let gen = self.peers[i].sim.keys[&vid].len() - 1;
             let (b, nonce) = self.peers[i].sim.message(&vid, &r, None);
+            let before = self.flights.len();
             self.send_to_victim(i, addr, b, InClass::Message { gen, msg: r, nonce });
+            if let Some(d) = slow {
+                for f in self.flights[before..].iter_mut() {
+                    f.due += d;
+                }
+            }
         }
     }
 
